@@ -136,6 +136,8 @@ FAULTS = {
     "throw-multiline-array": ("$r = [\n  1,\n  undefined_function_xyz(2),\n  3];", "run", 2),
     "parse-class-default": ("class K%d {\n  public $p = (1 + ;\n}", "parse", 1),
     "undefined-class": ("$o = new UndefinedClassXyz();", "run"),
+    "undefined-class-static": ("UndefinedClassXyz::f();", "run"),
+    "undefined-class-const": ("echo UndefinedClassXyz::C;", "run"),
     "undefined-method": ("$o = new Exception('x');\n$o->nopeMethod();", "run", 1),
     # reported at the parameter that rejects the value (PHP reports the declaration line too)
     "type-error-arg": ("function t%d(int $n) { return $n; }\n$k = 1;\nt%d('abc');", "run", 0),
@@ -178,9 +180,18 @@ def fault_programs(rng, n):
             # PHP alternative syntax before the fault, with line breaks inside the rewritten parts (fix 3e8473a)
             before += rng.choice(["if ($v0)\n\n:\n$alt = 1;\nelse\n:\n$alt = 2;\nendif;", "if ($v0): $alt = 1; endif;",
                                   "while (false)\n:\n$alt = 1;\nendwhile;"]) + eol
+        twice = False
+        if phase == "run" and "function " not in fault and "class " not in fault and rng.random() < 0.4:
+            # the same fault twice: first inside a try block whose catch swallows it, then uncaught further down; the
+            # diagnostic must name the SECOND site (nothing about the first failure may stick to the class / function name)
+            twice = True
+            before += "try {" + eol + fault + eol + "} catch (Exception $caught) {" + eol + "  $seen = 1;" + eol + "}" + eol
+            before += eol.join("$g%d = %d;" % (k, k) for k in range(rng.randrange(0, 4))) + eol
         after = "" if kind.endswith("-eof") else eol + eol.join("$w%d = %d;" % (k, k) for k in range(rng.randrange(0, 4)))
         src = head + before + fault + after
         line = (head + before).count("\n") + 1 + inner
+        if twice:
+            kind += ":twice"
         progs.append({"src": src, "line": line, "tol": tol, "kind": kind, "phase": phase, "eol": "crlf" if eol == "\r\n" else "lf",
                       "mode": mode})
     return progs
@@ -410,6 +421,15 @@ def main(ck):
                 # a #! line: the rest is lexed in template mode, offsets and lines relative to the whole source
                 s = rng.choice([b"#!/usr/bin/env zy\n", b"#!x\n", b"#!\n", b"#! no newline"]) + rng.choice([b"<?php ", b"<p>\n<?php\n", b""]) + s
             cases.append({"hex": s.hex(), "mode": m, "origin": "gen"})
+        # leading bytes that a lexer entry point may skip or treat specially (BOM, #! line, blank space, text before the
+        # open tag): spans and text are always checked against the ORIGINAL bytes handed to the entry point, in both modes
+        LEAD = [b"\xef\xbb\xbf", b"\xef\xbb\xbf\n", b"\xef\xbb\xbf#!/usr/bin/env zy\n", b"\xef\xbb\xbf ", b"\n\n", b"  \t", b"\r\n",
+                b"\xef\xbb", b"\xfe\xff", b"\xe3\x80\x80", b"\x00", b"#!/x\n\xef\xbb\xbf", b"<p>\xef\xbb\xbf</p>\n"]
+        for k in range(260 if quick else 4000):
+            body = gen_snippet(rng, rng.randrange(1, 8), special_p=0.02)
+            lead = LEAD[k % len(LEAD)]
+            cases.append({"hex": (lead + body).hex(), "mode": "plain", "origin": "lead"})
+            cases.append({"hex": (lead + rng.choice([b"<?php ", b"<?php\n", b"<b>x</b><?php "]) + body).hex(), "mode": "template", "origin": "lead"})
         # corpus files, their prefixes and mutants
         files = corpus_files()
         ck.cov["corpus_files_total"] = len(files)
